@@ -29,6 +29,12 @@ def check(R, F, P, cfg):
         own = owners_of_calls(P, lambda c, raw=raw: c["npath"] == raw)
         allowed = {"std::alloc::alloc": {"utils::cc_alloc", "utils::alloc_other"}, "std::alloc::dealloc": {"utils::cc_dealloc", "utils::dealloc_other"}}.get(raw, set())
         R.inst("R11.1", "raw:%s" % raw, set(own) <= allowed and (bool(own) or not allowed or True), "%s called from %s (allowed %s)" % (raw, sorted(own), sorted(allowed)), cfg=cfg, nontrivial=bool(own))
+    if weak:
+        for fn_ in ("utils::alloc_other", "utils::dealloc_other"):
+            tys = set()
+            for (f, bb, ci) in P.call_sites(lambda c, fn_=fn_: c["npath"] == fn_):
+                tys.add(ci["term"]["callee"]["substs"][0] if ci["term"]["callee"].get("substs") else "?")
+            R.inst("R11.1", "unaccounted-allocator-types:%s" % fn_, tys <= {"cc::BoxedMetadata"} and bool(tys), "%s (which does not touch allocated_bytes) is used for types %s; only the weak side record may bypass the byte accounting - a managed box freed this way is never subtracted" % (fn_, sorted(tys)), cfg=cfg)
     for fname, rec, raw in (("utils::cc_alloc", ST + "record_allocation", "std::alloc::alloc"), ("utils::cc_dealloc", ST + "record_deallocation", "std::alloc::dealloc")):
         f = anchor(F, fname)
         S = Super(P, f, opaque=DO - {fname})
